@@ -624,6 +624,8 @@ func ruleC06(w *World, r *Report) {
 		k.recvRule("C06", app)
 	}
 	k.ackOnceRule("C06.ackonce")
+	// a transfer that is refunded (relay chain's error acknowledgement) is not also delivered
+	k.relayAuthRule("C06.relay")
 	// sibling agreement of the path helpers
 	nft, mt := apps[0], apps[1]
 	replN := map[string]string{"apps/nft_transfer": "APP", `const("nft")`: "const(PFX)", "NonFungibleTokenPacketData": "PacketData"}
